@@ -36,7 +36,7 @@ ASSUMPTIONS = [
     "forced refresh: |2KE/(dof kT) - 1| <= 1e-9 for T >= 1 K (the implementation adds 1e-15 eV to the temperature before scaling)",
     "normality: |z|>5 on mean/variance or KS p<1e-6 flags; re-measured once with 4x the draws",
 ]
-REQUIRED = {"forced_refresh_with_constraints": 30, "reversibility_runs": 150, "reversibility_runs_with_used_integrator": 50, "order_runs_with_used_integrator": 20, "order_triples": 30, "refresh_batches": 4, "forced_refresh": 100, "hmc_trials": 300, "ke_checked_at_criteria": 300}
+REQUIRED = {"order_runs_with_reassigned_time_step": 20, "forced_refresh_with_constraints": 30, "reversibility_runs": 150, "reversibility_runs_with_used_integrator": 50, "order_runs_with_used_integrator": 20, "order_triples": 30, "refresh_batches": 4, "forced_refresh": 100, "hmc_trials": 300, "ke_checked_at_criteria": 300}
 SHARD_TIMEOUT = {"quick": 900, "thorough": 3000}
 
 
@@ -189,7 +189,17 @@ def run_order(spec, rec):
                 atoms.calc.results = {}
                 atoms.set_momenta(p0.copy())
                 ctx = make_ctx(atoms, derive_seed("o", i, h))
-                integ = Verlet(dt=wdt / omega / FS / 2**h, max_steps=base * 2**h, apply_constraints=appl)
+                dt_fs = wdt / omega / FS / 2**h
+                if i % 8 >= 6 and hasattr(Verlet(dt=1.0), "dt"):
+                    # a step-size scan on one kind of object: built with another time step, then its documented `dt` and
+                    # `max_steps` attributes re-assigned (the attribute's unit is read off the object itself)
+                    integ = Verlet(dt=dt_fs * 3.7, max_steps=5, apply_constraints=appl)
+                    unit = integ.dt / (dt_fs * 3.7)
+                    integ.dt = dt_fs * unit
+                    integ.max_steps = base * 2**h
+                    rec.count("order_runs_with_reassigned_time_step")
+                else:
+                    integ = Verlet(dt=dt_fs, max_steps=base * 2**h, apply_constraints=appl)
                 if shared:
                     integ.integrate(ctx)
                     atoms.positions = x00.copy()
